@@ -541,12 +541,20 @@ def _bs_check(ctx):
         return "%d:%d:%s" % (b, rng.randint(0, 1), rng.choice(("raw", "dagpb", "dagcbor")))
     for _ in range(n):
         ops = []
-        for _ in range(rng.randint(4, 40)):
+        # a third of the sequences stay inside what the Coq adapter model covers (one-byte multihash codes, no reopen) and are replayed on it
+        inmodel = rng.random() < 0.34
+        pool = (0, 1, 2, 2, 4, 6, 6, 8, 9, 10, 10, 12, 14, 18) if inmodel else (0, 1, 2, 2, 3, 4, 5, 6, 6, 7, 8, 9, 10, 10, 11, 14, 18)
+        def var(b=None):
+            b = rng.choice(pool) if b is None else b
+            return "%d:%d:%s" % (b, rng.randint(0, 1), rng.choice(("raw", "dagpb", "dagcbor")))
+        for _ in range(rng.randint(4, 30 if inmodel else 40)):
             r = rng.random()
+            if inmodel and r >= 0.96:
+                r = 0.5
             c = " c" if rng.random() < 0.1 else ""
             if r < 0.25: ops.append("put %s%s" % (var(), c))
             elif r < 0.33: ops.append("putmany %s%s" % (",".join(var() for _ in range(rng.randint(1, 6))), c))
-            elif r < 0.38: ops.append("putbad %s %d%s" % (var(), rng.randint(0, 11), c))
+            elif r < 0.38: ops.append("putbad %s %d%s" % (var(), rng.choice(pool), c))
             elif r < 0.60: ops.append("get %s%s" % (var(), c))
             elif r < 0.70: ops.append("has %s%s" % (var(), c))
             elif r < 0.80: ops.append("size %s%s" % (var(), c))
@@ -557,14 +565,19 @@ def _bs_check(ctx):
     parts = C.chunks(seqs, C.NCPU)
     from concurrent.futures import ThreadPoolExecutor
     def one(i):
-        inp = os.path.join(wd, "bs%d.in" % i); out = os.path.join(wd, "bs%d.jsonl" % i)
+        inp = os.path.join(wd, "bs%d.in" % i); out = os.path.join(wd, "bs%d.jsonl" % i); coq = os.path.join(wd, "bs%d.coq" % i)
         open(inp, "w").write("\n".join(parts[i]) + "\n")
-        p = C.sh([os.path.join(C.BIN, "bsdrive"), inp, out], check=False, timeout=3000, env=dict(os.environ, GOLOG_LOG_LEVEL="fatal"))
+        p = C.sh([os.path.join(C.BIN, "bsdrive"), inp, out, coq], check=False, timeout=3000, env=dict(os.environ, GOLOG_LOG_LEVEL="fatal"))
         if p.returncode != 0:
             raise C.CheckError("bsdrive failed: " + p.stdout[-2000:])
-        return [json.loads(l) for l in open(out)]
+        terms = []
+        for m in re.finditer(r"\(\*SEQ (\d+)\*\)\n(.*?)(?=\(\*SEQ |\Z)", open(coq).read(), flags=re.S):
+            terms.append(((i, int(m.group(1))), m.group(2).strip()))
+        return [json.loads(l) for l in open(out)], terms
     with ThreadPoolExecutor(len(parts)) as ex:
-        outs = list(ex.map(one, range(len(parts))))
+        both = list(ex.map(one, range(len(parts))))
+    outs = [b[0] for b in both]
+    bterms = [t for b in both for t in b[1]]
     viol, nontriv = [], set()
     kinds = collections.Counter()
     nbad = 0
@@ -630,7 +643,19 @@ def _bs_check(ctx):
                 if len(viol) < 3:
                     rp = C.save_replay(prop, "bs-%s.bsseq" % hashlib.sha1(txt.encode()).hexdigest()[:10], "# C15 fails on the implementation: %s\n# replay: cd /verif && ./check C15 --replay <this file>\n%s\n" % (bad, txt))
                     viol.append(("blockstore: " + bad, rp, True))
+    mism, coq_s = C.coq_replay(bterms, wd, header="From STH Require Import Lex Index Store Blockstore BlockstoreReplay.\nFrom Coq Require Import List NArith. Import ListNotations. Open Scope N_scope.\n",
+                               ctor_list="bs_case", fn="bs_mismatches")
+    nmodelled = len([t for t in bterms if t[1]])
+    if mism and not viol:
+        (pi, si), at = mism[0]
+        txt = parts[pi][si]
+        rp = C.save_replay(prop, "bscorr-%s.bsseq" % hashlib.sha1(txt.encode()).hexdigest()[:10],
+                           "# correspondence obligation broken: the adapter model over the store model (coq/theories/Blockstore.v) and the real HashedBlockstore disagree at call %d of this sequence (%d of %d modelled sequences disagree)\n"
+                           "# the contract oracle found no failing sequence among %d\n%s\n" % (at, len(mism), nmodelled, len(seqs), txt))
+        viol.append(("correspondence: blockstore model and implementation disagree on %d of %d sequences" % (len(mism), nmodelled), rp, False))
     return viol, {"evaluations": len(seqs), "distinct_nontrivial": len(nontriv), "oracle_failures": nbad, "op_histogram": dict(kinds),
+                  "traces_validated_against_impl": nmodelled - len(mism), "correspondence_mismatches": len(mism), "coq_replay_s": round(coq_s, 1),
+                  "sequences_replayed_on_the_model": nmodelled,
                   "samples": [{"sequence": seqs[-1]}],
                   "sequence_rule": "4-40 calls of Put / PutMany (1-6 blocks, duplicates allowed) / Put with mismatching bytes / Get / Has / GetSize / DeleteBlock / HashOnRead(on|off) / reopen over 12 blocks "
                                    "(sizes 0,1,7,13,40,64,300,4096; sha2-256, identity, blake2b-256 multihashes) addressed through CIDv0/v1 x raw/dag-pb/dag-cbor variants, 10 % of the calls with a cancelled context; "
